@@ -41,6 +41,23 @@ def within (src : ByteArray) (s : SpanJ) : Bool :=
 
 def hasKey (j : Json) (k : String) : Bool := !(isNull (fieldD j k))
 
+/-- The display span the diagnostic hands out (`labels()`), against the model's conversion of the span and against
+the text the diagnostic carries. Returns (spec failures, model disagreements). -/
+def labelClauses (what : String) (e : Json) (sp : SpanJ) (srcSize : Nat) : List String × List String :=
+  match fieldD e "label" with
+  | .null => ([], [])
+  | l =>
+    match (fieldD l "offset").getNat?, (fieldD l "len").getNat? with
+    | .ok off, .ok len =>
+      let s1 := if off + len > srcSize then [what ++ ":display-span-outside-text"] else []
+      let s2 := if off != sp.start || off + len != sp.stop then [what ++ ":display-span-is-not-the-span"] else []
+      let s3 := match fieldD l "readable" with | .bool false => [what ++ ":display-span-unreadable"] | _ => []
+      let c := match Tx3.Front.sourceSpan { dummy := sp.dummy, start := sp.start, stop := sp.stop } with
+        | .ok (o, n) => if o != off || n != len then [what ++ ":source-span"] else []
+        | _ => [what ++ ":source-span-model-panics"]
+      (s1 ++ s2 ++ s3, c)
+    | _, _ => ([], [])
+
 /-- The first node with rule `r`, depth first. -/
 partial def findRule (r : String) : List PTree → Option PTree
   | [] => none
@@ -178,6 +195,9 @@ def judge (prop : String) (j : Json) : R Verdict := do
       let src := if same then bytes else srcStr.toUTF8
       if sp.dummy then spec := spec ++ ["parse-error:dummy-span"]
       else if !(within src sp) then spec := spec ++ ["parse-error:span-within-src"]
+      else
+        let (ls, lc) := labelClauses "parse-error" e sp src.size
+        spec := spec ++ ls; corr := corr ++ lc
       -- the model: the diagnostic carries the whole input
       if !same then corr := corr ++ ["parse-error:src"]
       tags := tags ++ [if (input.toList.filter (· == '\n')).length > 1 then "multi-line" else "single-line"]
@@ -196,6 +216,8 @@ def judge (prop : String) (j : Json) : R Verdict := do
           let kind ← str (← field e "kind")
           tags := tags ++ ["diag:" ++ kind ++ (if sp.dummy then ":dummy" else "")]
           if !sp.dummy then
+            let (ls, lc) := labelClauses "analysis" e sp bytes.size
+            spec := spec ++ ls; corr := corr ++ lc
             if !(within bytes sp) then spec := spec ++ ["analysis:span-within-input:" ++ kind]
             else if kind == "NotInScope" then
               let name ← str (← field e "name")
